@@ -153,6 +153,7 @@ func init() {
 		ruleQueryCacheV1(e, r)
 		ruleCycleFlagMonotone(e, r)
 		ruleEdgeCacheVisited(e, r)
+		ruleRequestConstructedByConstructor(e, r)
 	})
 	describe("C08", meta{
 		Decides:    "(1) CachedCheckResolver stores a response only behind err==nil and !CycleDetected and serves one only behind LastModified.After(LastCacheInvalidationTime); (2) the cycle marker is sticky while child results are folded in internal/graph (a non-constant assignment only on a terminal path), so the !CycleDetected guard sees every cycle cut; (3) the weighted-graph engine caches an edge result under EdgeCacheKey only if it is positive or was computed without the request-scoped visited filter, and ResolveEdge hands the raw visited map to a callee only where usesVisited holds; plus completeness of CheckCacheKey / EdgeCacheKey / InvariantCacheKey (C24) and the consistency bypass (C10).",
@@ -252,4 +253,45 @@ func init() {
 		NotDecided: "the temporal statement itself: which entries are stale after which run, the partial/full boundary versus the TTL window, entries populated during a run — these depend on clocks and interleavings.",
 	})
 	techniques["C11"] = "who-calls agreement of marker keys, cut reachability on cache-hit returns, reviewed reference of the controller's comparisons"
+}
+
+func init() {
+	register("C27", "Authentication accepts exactly valid credentials", func(e *Engine, r *Reporter) {
+		ruleOIDC(e, r)
+		rulePSK(e, r)
+	})
+	describe("C27", meta{
+		Decides:    "(1) the OIDC JWT parser is built with valid methods exactly [RS256], issued-at validation, required expiry and the configured audience; keys come from the issuer JWKS; claims are returned only behind a nil parse error, token.Valid, an issuer accepted by a validator built from the main issuer or an alias, and a subject accepted when subjects are configured; (2) the pre-shared-key authenticator compares the token hash with every configured hash by subtle.ConstantTimeCompare in a loop without early exit and succeeds only on matched==1; the middleware rejects on an Authenticate error.",
+		NotDecided: "the JWT library's own validation and cryptography; JWKS refresh behaviour.",
+	})
+	techniques["C27"] = "option-set check of the parser construction + cut reachability on success returns"
+	register("C28", "Continuation tokens round-trip and resist tampering", func(e *Engine, r *Reporter) {
+		ruleTokens(e, r)
+		ruleTokenHandling(e, r)
+	})
+	describe("C28", meta{
+		Decides:    "TokenEncoder.Decode = base64 decode then Decrypt with both errors returned and Decrypt's verdict as result; GCMEncrypter.Decrypt returns plaintext only from AEAD.Open (empty input passthrough aside), Encrypt seals; each paging handler hands the server's encoder to its command, and each command queries the backend only behind a successful Decode (C14 token rule).",
+		NotDecided: "round-trip equality of positions over all values; AES-GCM itself (trusted).",
+	})
+	techniques["C28"] = "return-value origin analysis of the decode/decrypt chain; who-passes-what for the encoder option"
+}
+
+func init() {
+	register("C05", "ListObjects returns exactly the permitted objects", func(e *Engine, r *Reporter) {
+		ruleFurtherEvalSticky(e, r)
+		ruleObjectsConfirmedByCheck(e, r)
+		ruleReadSitesFiltered(e, r, map[string]bool{"v1": true, "pipeline": true})
+		r.Rule("reverse-expand-dispatch-total", "edge-kind switches of the reverse expansion cover every kind or fail closed", 3)
+		for _, s := range e.valueSwitches() {
+			if short(s.Pkg.PkgPath) == "pkg/server/commands/reverseexpand" && (s.Subject == "RelationshipEdgeType" || s.Subject == "EdgeType") {
+				ok, d := judgeSwitch(s, nil)
+				r.Check(ok, s.key(), e.pos(s.Pos), d, d)
+			}
+		}
+	})
+	describe("C05", meta{
+		Decides:    "the soundness skeleton: (1) the further-evaluation flag of the classic reverse expansion is sticky along a path (every hand-over depends on the caller's flag) and trySendCandidate turns it into RequiresFurtherEvalStatus behind a first-time LoadOrStore; (2) ListObjectsQuery.evaluate sends such a candidate only behind Allowed of a Check built from the request's relation, user, contextual tuples, context, consistency and store, and object results are built only in trySendObject; (3) every datastore read of the reverse expansion and of the pipeline passes the model filter and a condition evaluation; (4) edge-kind dispatch is total or fails closed.",
+		NotDecided: "completeness of the result set, exact-limit behaviour, that the flag is raised on every path through an intersection/exclusion in the weighted variant, worker interleavings.",
+	})
+	techniques["C05"] = "value-dependence check of the further-eval flag across the call graph, cut reachability, forward flow of read results"
 }
